@@ -187,6 +187,7 @@ fn run_fs(c: &FsCase) -> Outcome {
 		err_j: 0,
 		replace_action_at: 0,
 		throttle_change: None,
+		empty_errs: false,
 	};
 	let w2 = world.clone();
 	let fail = c.fail_watch;
